@@ -59,7 +59,11 @@ class Ctx(object):
         have = len(self.rules[rid]['instances'])
         if self.violations:
             return      # a reported violation explains missing dependent instances; it is not masked by exit 2
-        if have < n:
+        # n instances were confirmed by hand on the pinned tree.  Merging duplicated code or dropping a guarded site
+        # legitimately removes a few; losing more than a quarter means an anchor moved or the extractor went blind.
+        least = max(1, n - max(2, n // 4))
+        self.rules[rid]['confirmed_instances'] = n
+        if have < least:
             raise AnalysisBroken('%s: only %d %s found, %d were confirmed by hand on the pinned tree '
                                  '(anchor moved or extractor incomplete)' % (rid, have, what, n))
 
